@@ -307,7 +307,12 @@ func order(n int, o LowerOpts, unordered bool) []int {
 }
 
 // ErrProject explains why a wire tree is not a value of the schema.
-type ErrProject struct{ Why string }
+type ErrProject struct {
+	Why string
+	// Undetermined: the outcome depends on how a container with retyped
+	// elements is reported (the only member of a union).
+	Undetermined bool
+}
 
 func (e *ErrProject) Error() string { return e.Why }
 
@@ -317,10 +322,17 @@ func (e *ErrProject) Error() string { return e.Why }
 // unset (defaults are applied separately by FillDefaults), a required field
 // without default that is absent is an error, a union must end with exactly
 // one member.
-func Project(w rc.W, t *TypeRef) (*LVal, error) {
+func Project(w rc.W, t *TypeRef) (*LVal, error) { return project(w, t, false) }
+
+// ProjectEvolved is Project for a reader whose schema differs from the
+// writer's: a container whose element wire type differs is reported as an
+// ambiguous value instead of an error.
+func ProjectEvolved(w rc.W, t *TypeRef) (*LVal, error) { return project(w, t, true) }
+
+func project(w rc.W, t *TypeRef, evolved bool) (*LVal, error) {
 	rt := t.Root()
 	if w.T != WireType(rt) {
-		return nil, &ErrProject{fmt.Sprintf("wire type %d where %s (%d) is expected", w.T, TypeString(t), WireType(rt))}
+		return nil, &ErrProject{Why: fmt.Sprintf("wire type %d where %s (%d) is expected", w.T, TypeString(t), WireType(rt))}
 	}
 	switch rt.Kind {
 	case TBase:
@@ -339,11 +351,15 @@ func Project(w rc.W, t *TypeRef) (*LVal, error) {
 		if rt.Kind == TSet {
 			v.K = LSet
 		}
+		if evolved && w.VT != WireType(rt.Elem) {
+			v.Ambig = true
+			return v, nil
+		}
 		if len(w.Items) > 0 && w.VT != WireType(rt.Elem) {
-			return nil, &ErrProject{"container element wire type differs"}
+			return nil, &ErrProject{Why: "container element wire type differs"}
 		}
 		for _, it := range w.Items {
-			x, err := Project(it, rt.Elem)
+			x, err := project(it, rt.Elem, evolved)
 			if err != nil {
 				return nil, err
 			}
@@ -352,15 +368,19 @@ func Project(w rc.W, t *TypeRef) (*LVal, error) {
 		return v, nil
 	case TMap:
 		v := &LVal{K: LMap, Type: rt}
+		if evolved && (w.KT != WireType(rt.Key) || w.VT != WireType(rt.Elem)) {
+			v.Ambig = true
+			return v, nil
+		}
 		if len(w.Items) > 0 && (w.KT != WireType(rt.Key) || w.VT != WireType(rt.Elem)) {
-			return nil, &ErrProject{"map key/value wire type differs"}
+			return nil, &ErrProject{Why: "map key/value wire type differs"}
 		}
 		for i := 0; i+1 < len(w.Items); i += 2 {
-			k, err := Project(w.Items[i], rt.Key)
+			k, err := project(w.Items[i], rt.Key, evolved)
 			if err != nil {
 				return nil, err
 			}
-			x, err := Project(w.Items[i+1], rt.Elem)
+			x, err := project(w.Items[i+1], rt.Elem, evolved)
 			if err != nil {
 				return nil, err
 			}
@@ -383,7 +403,7 @@ func Project(w rc.W, t *TypeRef) (*LVal, error) {
 			for _, wf := range w.Fields {
 				for _, fl := range d.Fields {
 					if int16(fl.ID) == wf.ID && WireType(fl.Type) == wf.V.T {
-						x, err := Project(wf.V, fl.Type)
+						x, err := project(wf.V, fl.Type, evolved)
 						if err != nil {
 							return nil, err
 						}
@@ -392,22 +412,31 @@ func Project(w rc.W, t *TypeRef) (*LVal, error) {
 				}
 			}
 			if d.Kind == KUnion {
+				amb := 0
+				for _, x := range v.Fields {
+					if x.Ambig {
+						amb++
+					}
+				}
+				if amb > 0 && len(v.Fields)-amb <= 1 {
+					return nil, &ErrProject{Why: "union " + d.Name + " whose member count depends on a container with retyped elements", Undetermined: true}
+				}
 				if len(v.Fields) != 1 {
-					return nil, &ErrProject{fmt.Sprintf("union %s with %d members set", d.Name, len(v.Fields))}
+					return nil, &ErrProject{Why: fmt.Sprintf("union %s with %d members set", d.Name, len(v.Fields))}
 				}
 				return v, nil
 			}
 			for _, fl := range d.Fields {
 				if fl.Req == ReqRequired && fl.Default == nil {
 					if _, ok := v.Fields[fl.Name]; !ok {
-						return nil, &ErrProject{fmt.Sprintf("required field %s.%s is absent or mistyped", d.Name, fl.Name)}
+						return nil, &ErrProject{Why: fmt.Sprintf("required field %s.%s is absent or mistyped", d.Name, fl.Name)}
 					}
 				}
 			}
 			return v, nil
 		}
 	}
-	return nil, &ErrProject{"unsupported type"}
+	return nil, &ErrProject{Why: "unsupported type"}
 }
 
 // StructDefs lists the struct-like definitions of a program with their files.
@@ -435,4 +464,105 @@ func (p *Program) StructDefs() []struct {
 // TypeOf returns a type expression denoting the definition d of file f.
 func TypeOf(f *File, d Def) *TypeRef {
 	return &TypeRef{Kind: TNamed, Name: d.DefName(), Target: d, TFile: f}
+}
+
+// HasAmbig reports whether a value contains an ambiguous container.
+func HasAmbig(v *LVal) bool {
+	if v == nil {
+		return false
+	}
+	if v.Ambig {
+		return true
+	}
+	for _, it := range v.Items {
+		if HasAmbig(it) {
+			return true
+		}
+	}
+	for _, f := range v.Fields {
+		if HasAmbig(f) {
+			return true
+		}
+	}
+	return false
+}
+
+// Matches compares an expectation (which may contain ambiguous containers)
+// with an observed value, bitwise on doubles.
+func Matches(want, got *LVal) bool {
+	if want == nil {
+		return got == nil
+	}
+	if want.Ambig {
+		return got == nil || ((got.K == LList || got.K == LSet || got.K == LMap) && len(got.Items) == 0)
+	}
+	if got == nil || want.K != got.K {
+		return false
+	}
+	if !HasAmbig(want) {
+		return LKeyBits(want) == LKeyBits(got)
+	}
+	switch want.K {
+	case LList:
+		if len(want.Items) != len(got.Items) {
+			return false
+		}
+		for i := range want.Items {
+			if !Matches(want.Items[i], got.Items[i]) {
+				return false
+			}
+		}
+		return true
+	case LSet:
+		if len(want.Items) != len(got.Items) {
+			return false
+		}
+		used := make([]bool, len(got.Items))
+		for _, w := range want.Items {
+			ok := false
+			for j, g := range got.Items {
+				if !used[j] && Matches(w, g) {
+					used[j], ok = true, true
+					break
+				}
+			}
+			if !ok {
+				return false
+			}
+		}
+		return true
+	case LMap:
+		if len(want.Items) != len(got.Items) {
+			return false
+		}
+		used := make([]bool, len(got.Items)/2)
+		for i := 0; i+1 < len(want.Items); i += 2 {
+			ok := false
+			for j := 0; j+1 < len(got.Items); j += 2 {
+				if !used[j/2] && Matches(want.Items[i], got.Items[j]) && Matches(want.Items[i+1], got.Items[j+1]) {
+					used[j/2], ok = true, true
+					break
+				}
+			}
+			if !ok {
+				return false
+			}
+		}
+		return true
+	case LStruct:
+		names := map[string]bool{}
+		for n := range want.Fields {
+			names[n] = true
+		}
+		for n := range got.Fields {
+			names[n] = true
+		}
+		for n := range names {
+			if !Matches(want.Fields[n], got.Fields[n]) {
+				return false
+			}
+		}
+		return true
+	}
+	return LKeyBits(want) == LKeyBits(got)
 }
